@@ -9,7 +9,6 @@ import Rl.Lemmas.RenderLogExec
 import Rl.Lemmas.LineBuffer
 import Rl.Lemmas.LineBufferSafe
 import Rl.Lemmas.KillSpan
-import Rl.Lemmas.CharSearch
 set_option linter.unusedVariables false
 namespace Rl
 open Rl.Spec
@@ -131,6 +130,7 @@ variable {α β : Type}
 theorem get : Hush LM.get := by intro lb a lb' ns h; cases h; rfl
 theorem pure (a : α) : Hush (Pure.pure a : LM α) := by intro lb r lb' ns h; cases h; rfl
 theorem notify (n : Notif) : Hush (LM.notify n) := by intro lb r lb' ns h; cases h; rfl
+theorem panic : Hush (LM.panic : LM α) := by intro lb r lb' ns h; cases h
 theorem ro (f : LB → Except Panic α) : Hush (LM.ro f) := by
   intro lb r lb' ns h; unfold LM.ro at h; split at h <;> cases h; rfl
 theorem lift (e : Except Panic α) : Hush (LM.lift e) := by
@@ -194,6 +194,7 @@ macro_rules | `(tactic| nc_extra) => `(tactic| fail "no rule")
 macro "quiet_step" : tactic => `(tactic| first
   | with_reducible refine Hush.bind ?_ (fun _ => ?_) | with_reducible exact Hush.get | with_reducible exact Hush.pure _
   | with_reducible exact Hush.notify _ | with_reducible exact Hush.ro _ | with_reducible exact Hush.lift _
+  | with_reducible exact Hush.panic
   | dsimp only | split)
 macro "quiet_auto" : tactic => `(tactic| repeat (any_goals quiet_step))
 
@@ -484,210 +485,19 @@ theorem faithful_undo (S : Segmenter) (U : UData) (c c' : Changeset) (l l' : LB)
     exact ⟨rfl, rfl⟩
   · cases h
 
-/-! ### `yank_pop` and the paste after the cursor: FALSE as stated, true when the paste cannot be refused -/
+/-! ### `yank_pop` (after the repair of D44: it asks before it removes) -/
 
-/-- `yank` cannot refuse: the text is not empty and it fits (or the buffer may grow) -/
-theorem yank_some (S : Segmenter) (U : UData) (t : Text) (n : Nat) (lb lb' : LB) (r : Option Bool)
-    (ns : List Notif) (ht : t ≠ []) (hfit : lb.canGrow = true ∨ blen lb.buf + blen t * n ≤ lb.cap)
-    (h : LB.yank S U t n lb = .ok (r, lb', ns)) : r.isSome = true := by
-  rw [yank_eval] at h
-  have hnt : (t.isEmpty || lb.mustTruncate (lb.len + blen t * n)) = false := by
-    have h1 : t.isEmpty = false := by simpa using ht
-    have h2 : lb.mustTruncate (lb.len + blen t * n) = false := by
-      unfold LB.mustTruncate LB.len
-      rcases hfit with hg | hc
-      · simp [hg]
-      · simp; intro _; omega
-    simp [h1, h2]
-  simp only [hnt, Bool.false_eq_true, if_false] at h
-  split at h
-  · cases h
-  · cases h; rfl
+theorem nc_yankPop (S : Segmenter) (U : UData) (k : Nat) (t : Text) : NC Option.isSome (LB.yankPop S U k t) := by
+  unfold LB.yankPop; nc_auto
 
-/-- `yank_pop(k, t)` is faithful when the replacement text `t` cannot be refused after the `k` bytes of the
-    previous paste are gone: `t ≠ ""` and it fits (or the buffer may grow).  Without that it is NOT
-    (`yankPop_not_faithful`): the previous paste is removed first and the refusal comes after. -/
-theorem faithful_yankPop_of_fits (S : Segmenter) (U : UData) (k : Nat) (t : Text) (lb lb' : LB) (r : Option Bool)
-    (ns : List Notif) (ht : t ≠ []) (hfit : lb.canGrow = true ∨ blen lb.buf - k + blen t ≤ lb.cap)
-    (h : LB.yankPop S U k t lb = .ok (r, lb', ns)) (hr : r.isSome = false) :
-    lb'.buf = lb.buf ∧ lb'.pos = lb.pos := by
-  exfalso
-  unfold LB.yankPop at h
-  by_cases hk : k > lb.pos
-  · simp [LM.bind_apply, LM.get, hk, LM.panic] at h
-  · cases hd : LB.drain (lb.pos - k) lb.pos .forward lb with
-    | error e => simp [LM.bind_apply, LM.get, hk, hd] at h
-    | ok v =>
-      obtain ⟨y, l1, n1⟩ := v
-      have hd' := hd
-      unfold LB.drain at hd'
-      split at hd'
-      · rename_i x y' z hs3
-        cases hd'
-        obtain ⟨hbuf, hx, hy⟩ := split3_ok hs3
-        cases hy2 : LB.yank S U t 1 { lb with buf := x ++ z, pos := lb.pos - k } with
-        | error e => simp [LM.bind_apply, LM.get, hk, hd, LM.setPos, hy2] at h
-        | ok v2 =>
-          obtain ⟨r2, l2, n2⟩ := v2
-          simp [LM.bind_apply, LM.get, hk, hd, LM.setPos, hy2] at h
-          obtain ⟨rfl, _, _⟩ := h
-          have hlen : blen (x ++ z) = blen lb.buf - k := by
-            have h1 : blen lb.buf = blen x + blen y + blen z := by rw [hbuf]; simp; omega
-            have h2 : blen y = k := by omega
-            simp; omega
-          have := yank_some S U t 1 _ _ _ _ ht (by
-            show lb.canGrow = true ∨ blen (x ++ z) + blen t * 1 ≤ lb.cap
-            rw [hlen]; rcases hfit with hg | hc
-            · exact Or.inl hg
-            · exact Or.inr (by omega)) hy2
-          rw [this] at hr; cases hr
-      · cases hd'
-
-/-- FINDING: `LineBuffer::yank_pop` removes the previous paste and only then asks `yank` whether the new
-    text may go in; when `yank` refuses (empty text, or it does not fit a fixed capacity) the answer is
-    `None` although the line has changed — for every segmenter.  Witness: "abc", cursor 3, `yank_pop(3, "")`. -/
-theorem yankPop_not_faithful (S : Segmenter) (U : UData) : ¬ ∀ k t, EditOK (LB.yankPop S U k t) Option.isSome := by
-  intro h
-  have hrun : LB.yankPop S U 3 [] ⟨['a', 'b', 'c'], 3, 4096, true⟩ =
-      .ok (none, ⟨[], 0, 4096, true⟩, [.del 0 ['a', 'b', 'c'] .forward]) := by
-    rfl
-  have := h 3 [] ⟨['a', 'b', 'c'], 3, 4096, true⟩ none _ _ ⟨['a', 'b', 'c'], [], rfl, by decide⟩ hrun rfl
-  simp at this
-
-theorem not_lbFaithful (S : Segmenter) (U : UData) : ¬ LBFaithful S U :=
-  fun h => yankPop_not_faithful S U h.yankPop
-
-/-- the `yankAfter` field when the paste cannot be refused: its premise is contradictory -/
-theorem faithful_yankAfter_of_fits (S : Segmenter) (U : UData) (t : Text) (n : Nat) (lb l1 l2 l3 : LB)
-    (r1 r3 : Bool) (ns1 ns2 ns3 : List Notif) (ht : t ≠ [])
-    (hfit : lb.canGrow = true ∨ blen lb.buf + blen t * n ≤ lb.cap)
-    (h1 : LB.moveForward S U 1 lb = .ok (r1, l1, ns1)) (h2 : LB.yank S U t n l1 = .ok (none, l2, ns2)) :
-    l3.buf = lb.buf ∧ l3.pos = lb.pos := by
-  exfalso
-  obtain ⟨hb, hc, hg, _⟩ := (PosOnly.moveForward S U 1).h _ _ _ _ h1
-  have := yank_some S U t n l1 l2 none ns2 ht (by rw [hb, hc, hg]; exact hfit) h2
-  cases this
-
-/-- the `yankAfter` field for a stable segmenter and a cursor on a cluster boundary of the line: the step
-    back undoes the step forward.  (For a cursor inside a cluster it does not: `yankAfter_not_faithful`.) -/
-theorem faithful_yankAfter_of_stable (S : Segmenter) (U : UData) (hS : S.Stable) (t : Text) (n : Nat)
-    (lb l1 l2 l3 : LB) (r1 r3 : Bool) (ns1 ns2 ns3 : List Notif) (k : Nat)
-    (hk : lb.pos = offOf (S.seg lb.buf) k)
-    (h1 : LB.moveForward S U 1 lb = .ok (r1, l1, ns1)) (h2 : LB.yank S U t n l1 = .ok (none, l2, ns2))
-    (h3 : if r1 then LB.moveBackward S U 1 l2 = .ok (r3, l3, ns3) else l3 = l2) :
-    l3.buf = lb.buf ∧ l3.pos = lb.pos := by
-  have hwf : WF lb := by
-    have := offOf_boundary [] (S.seg lb.buf) k
-    rw [S.flatten_eq] at this
-    simpa [WF, hk] using this
-  obtain ⟨hy1, hy2⟩ := nc_yank S U t n _ _ _ _ h2 rfl
-  cases r1 with
-  | false =>
-    obtain ⟨hm1, hm2⟩ := faithful_moveForward S U 1 _ _ _ _ hwf h1
-    simp only [Bool.false_eq_true, if_false] at h3
-    subst h3
-    exact ⟨hy1.trans hm1, hy2.trans (hm2 rfl)⟩
-  | true =>
-    simp only [if_true] at h3
-    generalize hgs : S.seg lb.buf = gs at hk
-    -- the step forward
-    have hne : lb.pos ≠ lb.len := by
-      intro he
-      have := nextPos_at_end S lb 1 he
-      unfold LB.moveForward at h1
-      simp [LM.bind_apply, LM.ro, this] at h1
-    have hkl : k < gs.length := by
-      apply Classical.byContradiction
-      intro hge
-      apply hne
-      have : gs.take k = gs := List.take_of_length_le (by omega)
-      rw [hk]; unfold offOf; rw [this, ← hgs, S.flatten_eq]; rfl
-    have hbuf : lb.buf = (gs.take k).flatten ++ (gs.drop k).flatten := by
-      rw [← List.flatten_append, List.take_append_drop, ← hgs, S.flatten_eq]
-    have hpx : lb.pos = blen (gs.take k).flatten := hk
-    have hsp : splitAtByte lb.buf lb.pos = some ((gs.take k).flatten, (gs.drop k).flatten) := by
-      rw [hpx]; conv => lhs; rw [hbuf]
-      exact splitAtByte_append _ _
-    have hsegs : S.seg (gs.drop k).flatten = gs.drop k := by rw [← hgs]; exact (hS lb.buf k).2
-    have hdrop : gs.drop k = gs[k] :: gs.drop (k + 1) := List.drop_eq_getElem_cons hkl
-    have hnp : LB.nextPos S lb 1 = .ok (some (lb.pos + blen gs[k])) := by
-      rw [nextPos_eq_target S lb 1 hwf hne (by decide)]
-      have ho : offOf (gs.drop k) (min 1 (gs.drop k).length) = blen gs[k] := by
-        have hm : min 1 (gs.drop k).length = 1 := by rw [hdrop, List.length_cons]; omega
-        rw [hm]; unfold offOf; rw [hdrop]
-        simp only [List.take_succ_cons, List.take_zero, List.flatten_cons, List.flatten_nil, List.append_nil]
-      simp only [charTargetFwd, splitAt?, hsp, hsegs, Option.bind, bind, pure, ho]
-    unfold LB.moveForward at h1
-    simp [LM.bind_apply, LM.ro, hnp, LM.setPos] at h1
-    obtain ⟨rfl, _⟩ := h1
-    -- the step back
-    have hl2b : l2.buf = lb.buf := hy1
-    have hl2p : l2.pos = lb.pos + blen gs[k] := hy2
-    have htake : gs.take (k + 1) = gs.take k ++ [gs[k]] := List.take_succ_eq_append_getElem hkl
-    have hbuf2 : l2.buf = (gs.take (k + 1)).flatten ++ (gs.drop (k + 1)).flatten := by
-      rw [hl2b, ← List.flatten_append, List.take_append_drop, ← hgs, S.flatten_eq]
-    have hp2 : l2.pos = blen (gs.take (k + 1)).flatten := by
-      rw [hl2p, hpx, htake]
-      simp only [List.flatten_append, blen_append, List.flatten_cons, List.flatten_nil, List.append_nil]
-    have hwf2 : WF l2 := ⟨_, _, hbuf2, hp2⟩
-    have hsp2 : splitAtByte l2.buf l2.pos = some ((gs.take (k + 1)).flatten, (gs.drop (k + 1)).flatten) := by
-      rw [hp2]; conv => lhs; rw [hbuf2]
-      exact splitAtByte_append _ _
-    have hsegp : S.seg (gs.take (k + 1)).flatten = gs.take (k + 1) := by rw [← hgs]; exact (hS lb.buf (k + 1)).1
-    have hgpos : 0 < blen gs[k] := blen_pos_of_ne_nil (S.ne_nil lb.buf _ (by rw [hgs]; exact List.getElem_mem hkl))
-    have hpp : LB.prevPos S l2 1 = .ok (some lb.pos) := by
-      rw [prevPos_eq_target S l2 1 hwf2 (by omega) (by decide)]
-      have hlen : (gs.take (k + 1)).length = k + 1 := by simp; omega
-      simp only [charTargetBwd, splitAt?, hsp2, hsegp, hlen, Option.bind, bind, pure]
-      have : k + 1 - min 1 (k + 1) = k := by omega
-      rw [this, hpx]
-      congr 2
-      unfold offOf
-      rw [List.take_take, Nat.min_eq_left (by omega)]
-    unfold LB.moveBackward at h3
-    simp [LM.bind_apply, LM.ro, hpp, LM.setPos] at h3
-    obtain ⟨_, rfl, _⟩ := h3
-    exact ⟨hl2b, rfl⟩
-
-/-- a (stable) segmenter that glues U+0301 to the cluster before it -/
-def markSeg : Segmenter := Segmenter.ofGroup (fun (_ : Unit) c => c == '́') (fun _ _ => ()) (fun _ => ())
-
-/-- FINDING: in `edit_yank(Anchor::After)` the refused paste is followed by `move_backward(1)`, which is not
-    the inverse of the `move_forward(1)` before it when the cursor stood inside a grapheme cluster (a
-    state `readline_with_initial(("e", "\u{301}x"))` produces): "e◌́x", cursor 1, forward → 3, paste of ""
-    refused, back → 0. -/
-theorem yankAfter_not_faithful (U : UData) :
-    ¬ ∀ (t : Text) (n : Nat) (lb l1 l2 l3 : LB) (r1 r3 : Bool) (ns1 ns2 ns3 : List Notif),
-      IsBoundary lb.buf lb.pos → LB.moveForward markSeg U 1 lb = .ok (r1, l1, ns1) →
-      LB.yank markSeg U t n l1 = .ok (none, l2, ns2) →
-      (if r1 then LB.moveBackward markSeg U 1 l2 = .ok (r3, l3, ns3) else l3 = l2) →
-      l3.buf = lb.buf ∧ l3.pos = lb.pos := by
-  intro h
-  have e1 : LB.moveForward markSeg U 1 ⟨['e', '́', 'x'], 1, 4096, true⟩ =
-      .ok (true, ⟨['e', '́', 'x'], 3, 4096, true⟩, []) := by rfl
-  have e2 : LB.yank markSeg U [] 1 ⟨['e', '́', 'x'], 3, 4096, true⟩ =
-      .ok (none, ⟨['e', '́', 'x'], 3, 4096, true⟩, []) := by rfl
-  have e3 : LB.moveBackward markSeg U 1 ⟨['e', '́', 'x'], 3, 4096, true⟩ =
-      .ok (true, ⟨['e', '́', 'x'], 0, 4096, true⟩, []) := by rfl
-  have := h [] 1 _ _ _ ⟨['e', '́', 'x'], 0, 4096, true⟩ true true [] [] []
-    ⟨['e'], ['́', 'x'], rfl, by decide⟩ e1 e2 (by simpa using e3)
-  simp at this
+/-- `yank_pop` answers `None` only when the replacement does not fit, and then nothing has been touched -/
+theorem faithful_yankPop (S : Segmenter) (U : UData) (k : Nat) (t : Text) :
+    EditOK (LB.yankPop S U k t) Option.isSome := (nc_yankPop S U k t).editOK
 
 /-! ### assembly -/
 
-/-- the two obligations of `LBFaithful` that are NOT true of the current line buffer (`yankPop_not_faithful`,
-    `yankAfter_not_faithful`); both are about a paste that `yank` refuses -/
-structure YankFaithful (S : Segmenter) (U : UData) : Prop where
-  yankPop : ∀ k t, EditOK (LB.yankPop S U k t) Option.isSome
-  yankAfter : ∀ (t : Text) (n : Nat) (lb l1 l2 l3 : LB) (r1 r3 : Bool) (ns1 ns2 ns3 : List Notif),
-    IsBoundary lb.buf lb.pos → LB.moveForward S U 1 lb = .ok (r1, l1, ns1) →
-    LB.yank S U t n l1 = .ok (none, l2, ns2) →
-    (if r1 then LB.moveBackward S U 1 l2 = .ok (r3, l3, ns3) else l3 = l2) →
-    l3.buf = lb.buf ∧ l3.pos = lb.pos
-
-/-- every obligation of `LBFaithful` except the two about a refused paste holds, for every segmenter and every
-    Unicode data -/
-theorem lbFaithful_of_yank (S : Segmenter) (U : UData) (hy : YankFaithful S U) : LBFaithful S U where
+/-- **The line-buffer operations the editor calls are faithful**, for every segmenter and every Unicode data -/
+theorem lbFaithful (S : Segmenter) (U : UData) : LBFaithful S U where
   moveHome := faithful_moveHome S U
   moveEnd := faithful_moveEnd S U
   moveBackward := faithful_moveBackward S U
@@ -704,13 +514,9 @@ theorem lbFaithful_of_yank (S : Segmenter) (U : UData) (hy : YankFaithful S U) :
   editWord := fun a => (nc_editWord S U a).editOK
   transposeWords := fun n => (nc_transposeWords S U n).editOK
   indent := fun m k d => (nc_indent S U m k d).editOK
-  yank := fun t n => (nc_yank S U t n).editOK
-  yankPop := hy.yankPop
+  yank := fun t n => nc_yank S U t n
+  yankPop := faithful_yankPop S U
   delete := fun n => (nc_delete S U n).editOK
   undo := fun c c' l l' n _ h => faithful_undo S U c c' l l' n h
-  yankAfter := hy.yankAfter
-
-theorem not_yankFaithful (S : Segmenter) (U : UData) : ¬ YankFaithful S U :=
-  fun h => yankPop_not_faithful S U h.yankPop
 
 end Rl
